@@ -208,7 +208,9 @@ def gDocument (st : Spec.State) : G Bytes := do
 def genEco (seed n : Nat) : List String :=
   (List.range n).map fun k =>
     let (st, doc) := G.run (do let st ← gEcoState; let doc ← gDocument st; pure (st, doc)) (seed * 1000003 + k)
-    let line := s!"eco{seed}_{k} eco 3001 0 {hexOf doc}"
+    -- a share of the cases goes over a real loopback HTTP server (IPv4 / IPv6)
+    let entry := if k % 20 == 19 then "eco_http6" else if k % 10 == 9 then "eco_http" else "eco"
+    let line := s!"eco{seed}_{k} {entry} 3001 0 {hexOf doc}"
     let wf := if Spec.wf st then "" else " NOTWF"
     line ++ " ## WANT " ++ showRes showEco (.ok (Spec.expected st)) ++ wf ++ " ## SEG 1"
 
